@@ -50,15 +50,19 @@ def _simplify_primitive(ctx: Ctx) -> None:
     RP.rule_polytope_roundtrip(ctx)
     RP.rule_back_conversion_every_row(ctx)
     RP.rule_lp_zero_columns(ctx, P + "reduce_polytope", ["a", "a_help"], ["b"])
+    # a context whose terms mention no variable (rows 0 <= b_help) while the list itself has columns
+    RP.rule_lp_zero_columns(ctx, P + "reduce_polytope", ["a_help"], ["b_help"], allow_lp=True)
     RP.rule_lp_bounds(ctx)
 
 
 def c05(ctx: Ctx) -> None:
+    RE.rule_definite_assignment(ctx)
     RA.rule_soundness(ctx, RA.GENERIC, ["compose", "quotient", "merge"])
     RA.rule_tl_operators(ctx)
 
 
 def c01(ctx: Ctx) -> None:
+    RE.rule_definite_assignment(ctx)
     RA.rule_soundness(ctx, RA.POLY, ["compose"])
     RK.rule_term_kernels(ctx, ["multiply", "add", "remove", "substitute", "isolate"])
     RP.rule_dispatcher(ctx)
@@ -71,6 +75,7 @@ def c01(ctx: Ctx) -> None:
 
 
 def c02(ctx: Ctx) -> None:
+    RE.rule_definite_assignment(ctx)
     RA.rule_soundness(ctx, RA.POLY, ["quotient"])
     RK.rule_term_kernels(ctx, ["multiply", "add", "remove", "substitute", "isolate"])
     RP.rule_dispatcher(ctx)
@@ -84,6 +89,7 @@ def c02(ctx: Ctx) -> None:
 
 
 def c08(ctx: Ctx) -> None:
+    RE.rule_definite_assignment(ctx)
     RA.rule_soundness(ctx, RA.POLY, ["merge"])
     RA.rule_interfaces(ctx, RA.POLY, ["merge"])
     RA.rule_tl_operators(ctx)
@@ -92,6 +98,7 @@ def c08(ctx: Ctx) -> None:
 
 
 def c06(ctx: Ctx) -> None:
+    RE.rule_definite_assignment(ctx)
     RA.rule_constructor(ctx, RA.GENERIC)
     RA.rule_interfaces(ctx, RA.POLY, ["compose", "quotient", "merge"])
     RA.rule_interfaces(ctx, RA.GENERIC, ["compose", "quotient", "merge"])
@@ -105,6 +112,7 @@ def c06(ctx: Ctx) -> None:
 
 
 def c15(ctx: Ctx) -> None:
+    RE.rule_definite_assignment(ctx)
     RA.rule_retention(ctx, RA.POLY)
     RA.rule_exactness(ctx, RA.POLY)
     # "verbatim" rests on the list operators and on exact term equality (a tolerant == makes | and - drop near-equal terms)
@@ -115,6 +123,7 @@ def c15(ctx: Ctx) -> None:
 
 
 def c16(ctx: Ctx) -> None:
+    RE.rule_definite_assignment(ctx)
     RK.rule_term_kernels(ctx, ["rename", "remove", "copy"])
     RP.rule_rename_variables_chain(ctx)
     RS.rule_termlist_rename(ctx)
@@ -123,6 +132,7 @@ def c16(ctx: Ctx) -> None:
 
 
 def c04(ctx: Ctx) -> None:
+    RE.rule_definite_assignment(ctx)
     P = RP.PTL
     RP.rule_dispatcher(ctx)
     RP.rule_transform(ctx)
@@ -146,6 +156,7 @@ def c04(ctx: Ctx) -> None:
 
 
 def c07(ctx: Ctx) -> None:
+    RE.rule_definite_assignment(ctx)
     P = RP.PTL
     RP.rule_status_table(ctx, P + "reduce_polytope")
     RP.rule_lp_compare(ctx, P + "reduce_polytope", tolerance_rule=False, require_boundary=False)
@@ -157,11 +168,14 @@ def c07(ctx: Ctx) -> None:
     RP.rule_polytope_roundtrip(ctx)
     RP.rule_back_conversion_every_row(ctx)
     RP.rule_lp_zero_columns(ctx, P + "reduce_polytope", ["a", "a_help"], ["b"])
+    # a context whose terms mention no variable (rows 0 <= b_help) while the list itself has columns
+    RP.rule_lp_zero_columns(ctx, P + "reduce_polytope", ["a_help"], ["b_help"], allow_lp=True)
     RA.rule_constructor(ctx, RA.POLY)
     RP.rule_lp_bounds(ctx)
 
 
 def c11(ctx: Ctx) -> None:
+    RE.rule_definite_assignment(ctx)
     P = RP.PTL
     RP.rule_contains_behavior(ctx)
     RP.rule_matrix_provenance(ctx, RP.PTL + "is_polytope_empty")
@@ -177,11 +191,13 @@ def c11(ctx: Ctx) -> None:
 
 
 def c12(ctx: Ctx) -> None:
+    RE.rule_definite_assignment(ctx)
     P = RP.PTL
     RP.rule_status_table(ctx, P + "optimize")
     RP.rule_matrix_provenance(ctx, P + "optimize")
     RP.rule_polarity(ctx, P + "optimize", "maximize", True, "return")
     RP.rule_get_variable_bounds(ctx)
+    RP.rule_optimize_unconstrained(ctx)
     RP.rule_lp_bounds(ctx)
     # the LP is posed over  assumptions | guarantees  turned into matrices: union by exact term equality, one row per term
     RA.rule_tl_operators(ctx)
@@ -190,6 +206,7 @@ def c12(ctx: Ctx) -> None:
 
 
 def c09(ctx: Ctx) -> None:
+    RE.rule_definite_assignment(ctx)
     RPA.rule_data_kernels(ctx)
     RPA.rule_translation(ctx)
     RPA.rule_scaling_actions(ctx)
@@ -201,6 +218,7 @@ def c09(ctx: Ctx) -> None:
 
 
 def c10(ctx: Ctx) -> None:
+    RE.rule_definite_assignment(ctx)
     RSER.rule_dict_tables(ctx)
     RSER.rule_machine_exact(ctx)
     RSER.rule_file_tags(ctx)
@@ -212,6 +230,7 @@ def c10(ctx: Ctx) -> None:
 
 
 def c13(ctx: Ctx) -> None:
+    RE.rule_definite_assignment(ctx)
     RF.rule_no_operand_mutation(ctx)
     RF.rule_no_global_mutation(ctx)
     RF.rule_no_alias_results(ctx)
@@ -220,6 +239,7 @@ def c13(ctx: Ctx) -> None:
 
 
 def c14(ctx: Ctx) -> None:
+    RE.rule_definite_assignment(ctx)
     RE.rule_raise_classes(ctx)
     RE.rule_constructed_not_raised(ctx)
     RE.rule_asserts(ctx)
@@ -241,11 +261,15 @@ def c14(ctx: Ctx) -> None:
     RP.rule_lp_zero_columns(ctx, P + "is_polytope_empty", ["a"], ["b"])
     RP.rule_lp_emptiness_shortcuts(ctx)
     RP.rule_lp_zero_columns(ctx, P + "reduce_polytope", ["a", "a_help"], ["b"])
+    # a context whose terms mention no variable (rows 0 <= b_help) while the list itself has columns
+    RP.rule_lp_zero_columns(ctx, P + "reduce_polytope", ["a_help"], ["b_help"], allow_lp=True)
     RE.rule_unorderable_sort(ctx)
     RE.rule_array_inplace_cast(ctx)
+    RE.rule_raise_message_types(ctx)
 
 
 def c19(ctx: Ctx) -> None:
+    RE.rule_definite_assignment(ctx)
     RS.rule_eq(ctx)
     RS.rule_hash(ctx)
     RS.rule_hash_order(ctx)
@@ -257,6 +281,7 @@ def c19(ctx: Ctx) -> None:
 
 
 def c17(ctx: Ctx) -> None:
+    RE.rule_definite_assignment(ctx)
     RS.rule_nested_contains(ctx)
     # contains_behavior of an alternative rests on evaluate / substitute
     RP.rule_contains_behavior(ctx)
@@ -271,6 +296,7 @@ def c17(ctx: Ctx) -> None:
 
 
 def c03(ctx: Ctx) -> None:
+    RE.rule_definite_assignment(ctx)
     P = RP.PTL
     RP.rule_refines_order(ctx)
     RP.rule_emptiness_precheck(ctx)
